@@ -264,11 +264,15 @@ func famDelim(c *Ctx) {
 		case 0, 1, 2, 3, 4, 5:
 			delimStructured(c, g)
 		case 6, 7:
-			delimMalformed(c, g)
+			for i := 0; i < 12; i++ {
+				delimMalformed(c, g)
+			}
 		case 8:
 			delimAlias(c, g)
 		default:
-			delimMarshal(c, g)
+			for i := 0; i < 3; i++ {
+				delimMarshal(c, g)
+			}
 		}
 	}
 }
@@ -309,8 +313,12 @@ func delimCorpus(c *Ctx) {
 					continue
 				}
 			}
-			for _, k := range []delimReaderKind{plain, buf16, one} {
+			sz0, _ := protowire.ConsumeVarint(s)
+			for ki, k := range []delimReaderKind{plain, buf16, one} {
 				for _, terr := range []bool{false, true} {
+					if sz0 >= 1<<20 && sz0 <= 1<<48 && sz0 <= delimEffMax(max) && (ki == 2 || terr || (max != 0 && max != -1)) {
+						continue // megabyte allocations: a few combinations are enough
+					}
 					cl := delimRawRead(c, max, terr, k, s)
 					delimKnownF15(c, cl, max, s)
 				}
